@@ -9,9 +9,9 @@ NOTES = {
     'C20-r3': 'NOT caught, quick or thorough (10.4 M executions): see 8.8',
     'C01-r4': 'same change as C02-r3 (second agent, independently): NOT caught, see 8.8',
     'C03-r7': 'same change as C02-r3 / C01-r4 (third agent): NOT caught, see 8.8',
-    'C06-r7': 'NOT caught (needs a 10^8-10^9-point stall): see 8.8',
+    'C06-r7': 'missed in round 7; caught since the long-stall runs of round 8 (the result shown is the re-run)',
     'C02-r6': 'NOT caught (bounded stall, nothing to observe under the virtual clock): see 8.8',
-    'C03-r6': 'NOT caught (needs a 10^8-point stall): see 8.8',
+    'C03-r6': 'missed in round 6; caught since the long-stall runs of round 8 (the result shown is the re-run)',
 }
 rows = []
 for d in sorted(glob.glob(V + '/seeded/*-r*'), key=lambda x: (x.split('-r')[1], x)):
